@@ -68,6 +68,12 @@ AllOfs == { [k |-> "allOf", nullable |-> FALSE, of |-> << a, b >>] :
 AllOfsAlsoReq == { [k |-> "allOf", nullable |-> FALSE, of |-> << a, b >>, alsoReq |-> rq] :
                      a \in Forms(MemberA, "PoolA"), b \in Forms(MemberC, "PoolC"),
                      rq \in { << "tag" >>, << "flag" >>, << "tag", "when" >>, << "name" >> } }
+\* an allOf member that collects additional properties and is NOT the last thing decoded (PoolD {note : string,
+\* additionalProperties : string}): the keys of the members after it are theirs, not its extras
+MemberD == Obj(<< P("note", Sc("string", FALSE), FALSE) >>, [addlK |-> "schema", addl |-> Sc("string", FALSE)])
+\* (the later member's properties are strings: for JSON Schema they are additional properties of the first member as
+\* well and have to satisfy its value schema - with another type the allOf would admit no document at all)
+AllOfsAddlFirst == { [k |-> "allOf", nullable |-> FALSE, of |-> << a, b >>] : a \in Forms(MemberD, "PoolD"), b \in Forms(MemberA, "PoolA") }
 DM(k, v) == [k |-> k, v |-> v]
 OneOf(vs, d, dm) == [k |-> "oneOf", nullable |-> FALSE, of |-> vs, discProp |-> d, discMap |-> dm]
 Dog == Ref("VarDog")  Cat == Ref("VarCat")  Bird == Ref("VarBird")
@@ -103,7 +109,7 @@ Aliases == { Ref("PoolA"), Ref("PoolNames"), Obj(<< P("via", Ref("PoolAliasA"), 
 OneRef(n, nl) == [k |-> "allOf", nullable |-> nl, of |-> << Ref(n) >>]
 NullableRefIdiom == { Obj(<< P("owner", OneRef("PoolA", nl), r), P("id", Sc("int64", FALSE), TRUE) >>, [addlK |-> ""]) : nl \in BOOLEAN, r \in BOOLEAN }
                     \cup { OneRef("PoolA", nl) : nl \in BOOLEAN } \cup { Arr(OneRef("PoolB", TRUE)) }
-Universe == NullableRefIdiom \cup Aliases \cup NullRefs \cup Scalars \cup { Arr(s) : s \in Scalars } \cup Objects \cup AllOfs \cup AllOfsAlsoReq \cup OneOfs \cup Nested
+Universe == NullableRefIdiom \cup Aliases \cup NullRefs \cup Scalars \cup { Arr(s) : s \in Scalars } \cup Objects \cup AllOfs \cup AllOfsAddlFirst \cup AllOfsAlsoReq \cup OneOfs \cup Nested
 
 EmitSchema(s) == st = "pick" /\ Emit /\ PrintT(ToJson([schema |-> s])) /\ UNCHANGED vars
 
